@@ -78,8 +78,52 @@ def run(ctx, ck) -> None:
         ok, why = schema(world, table, cls, fn)
         ck.expect('L2', ok, fn, why, f'{cls.name}.as_matrix does not have the dense form of its class: {why}', instance=cls.name)
 
+    # L2b: a dense form written with the class's own placement helpers is faithful only if mv places the values with
+    # the very same helpers, called on the same object
+    structural = {'in_structure', 'out_structure', 'in_size', 'out_size', 'as_matrix', 'in_promoted_dtype', 'out_promoted_dtype'}
+    nshared = 0
+    for cls in table.operators():
+        am = table.resolve(cls, 'as_matrix')
+        mv = table.resolve(cls, 'mv')
+        if am is None or mv is None or not isinstance(am.node, ast.FunctionDef) or not isinstance(mv.node, ast.FunctionDef) or am.node is generic.node:
+            continue
+        me = am.node.args.args[0].arg
+        called = {n.func.attr for n in ast.walk(am.node) if isinstance(n, ast.Call) and isinstance(n.func, ast.Attribute) and isinstance(n.func.value, ast.Name)
+                  and n.func.value.id == me and (n.args or n.keywords)}
+        used = {k: v for k, v in _self_closure(table, cls, am.node, depth=0).items() if k not in structural and k in called}
+        if not used:
+            continue
+        reach = _self_closure(table, cls, mv.node)
+        missing = sorted(k for k, v in used.items() if reach.get(k) is not v)
+        nshared += 1
+        ck.expect('L2', not missing, mv.node, f'{cls.name}.mv places its values through {sorted(used)} of the same object, the helpers its dense form uses',
+                  f'{cls.name}.as_matrix builds the dense form with self.{missing[0] if missing else ""}(), but {cls.name}.mv does not go through that helper on the same object: '
+                  'the dense form and the matrix-free action take their coefficients from different places', instance=f'{cls.name} shared helpers')
+    ck.floor('L2', nshared, 2, 'classes whose dense form shares helpers with mv')
+
     # ------------------------------------------------------------------ L3
     _generic_builder(ck, generic.node)
+
+
+def _self_closure(table, cls, fn: ast.FunctionDef, depth: int = 6) -> dict:
+    """Methods and properties of `cls` reached from fn through accesses on its own first parameter (name -> definition)."""
+    out: dict = {}
+    todo = [(fn, depth)]
+    seen = set()
+    while todo:
+        f, d = todo.pop()
+        if id(f) in seen or not f.args.args:
+            continue
+        seen.add(id(f))
+        me = f.args.args[0].arg
+        for n in ast.walk(f):
+            if isinstance(n, ast.Attribute) and isinstance(n.value, ast.Name) and n.value.id == me and isinstance(n.ctx, ast.Load):
+                r = table.resolve(cls, n.attr)
+                if r is not None and isinstance(r.node, ast.FunctionDef):
+                    out.setdefault(n.attr, r.node)
+                    if d > 0:
+                        todo.append((r.node, d - 1))
+    return out
 
 
 # ---------------------------------------------------------------------- schemas
@@ -144,12 +188,26 @@ def s_homothety(world, table, cls, fn):
 
 
 def s_lazy_inverse(world, table, cls, fn):
+    """General matrix inverse of the operand's dense form: inv(M), or solve(M, identity) without structure assumption."""
     t, _ = _single_return(fn)
     S = _self(fn)
-    want = ('call', ('attr', ('attr', ('var', 'jnp'), 'linalg'), 'inv'), (('call', ('attr', ('attr', S, 'operator'), 'as_matrix'), (), ()),), ())
-    if t == want:
-        return True, 'matrix inverse of the operand matrix'
-    return False, f'expected jnp.linalg.inv(self.operator.as_matrix()), found {show(t)}'
+    dense = ('call', ('attr', ('attr', S, 'operator'), 'as_matrix'), (), ())
+    linalg = (('attr', ('var', 'jnp'), 'linalg'), ('var', 'jsl'), ('attr', ('attr', ('var', 'jax'), 'scipy'), 'linalg'), ('attr', ('var', 'np'), 'linalg'))
+    if t and t[0] == 'call' and t[1][0] == 'attr' and t[1][1] in linalg:
+        name, args, kws = t[1][2], t[2], dict(t[3])
+        if name == 'inv' and args == (dense,) and not kws:
+            return True, 'matrix inverse of the operand matrix'
+        if name == 'solve' and len(args) == 2 and args[0] == dense:
+            rhs = args[1]
+            is_eye = rhs[0] == 'call' and rhs[1][0] == 'attr' and rhs[1][2] in ('eye', 'identity')
+            assumed = kws.get('assume_a', ('const', "'gen'"))
+            if not is_eye:
+                return False, f'solve against {show(rhs)}, which is not an identity matrix'
+            if assumed not in (('const', "'gen'"), ('const', "'general'")) or set(kws) - {'assume_a'}:
+                return False, (f'the operand matrix is inverted under the structure assumption {show(assumed)} {sorted(set(kws) - {"assume_a"})}: '
+                               'operands of lazy inverses are only required to be invertible')
+            return True, 'general solve of the operand matrix against the identity'
+    return False, f'expected the general inverse of self.operator.as_matrix(), found {show(t)}'
 
 
 def _stack_schema(func_name, leaves_attr='block_leaves', star=False):
@@ -161,6 +219,13 @@ def _stack_schema(func_name, leaves_attr='block_leaves', star=False):
             good_f = _is_jnp(f, func_name) or f in (('attr', ('var', 'jsl'), func_name), ('attr', ('attr', ('attr', ('var', 'jax'), 'scipy'), 'linalg'), func_name))
             arg = t[2][0]
             if good_f and ((star and arg[0] == 'star') or (not star and arg[0] != 'star')) and _per_leaf_matrices(arg, S, leaves_attr):
+                kws = dict(t[3])
+                extra = sorted(set(kws) - {'dtype'})
+                if extra:
+                    return False, f'{func_name} is called with {extra}: not part of the dense form of the class'
+                if 'dtype' in kws and kws['dtype'] != ('attr', S, 'out_promoted_dtype'):
+                    return False, (f'the stacked matrix is converted to {show(kws["dtype"])}: the entries of the dense form have the dtype of what the blocks return '
+                                   '(out_promoted_dtype); any other dtype narrows blocks that widen their input (float32 blocks on float16 data, complex blocks on real data)')
                 return True, f'{func_name} of the block matrices over {leaves_attr} (the leaf order mv and the structures use)'
         return False, f'expected {func_name} over op.as_matrix() for op in self.{leaves_attr}, found {show(t)}'
 
